@@ -73,6 +73,15 @@ CHECKS = {
             "recurse means 'call the function', call_next 'the function without the current method' or a fresh call; dispatch errors "
             "compared by kind. F12b / F12c are recognised by their build-time error and call-site shape.",
             "DESIGN.md §4 C09"),
+    "C18": ("fault_enumeration",
+            "runtime fault injection: sys.monitoring LINE-event injector raising at every executed library line of build / rebuild / cache-miss / continuation, plus natural faults (invalid methods, raising user hooks, RecursionError by stack padding); probes vs complete-set reference",
+            "The executed source lines of the library during an operation are enumerated as crash points; at each one a "
+            "BaseException is raised on a fresh instance and eight probe calls must then behave like a never-faulted function built "
+            "from the complete method set. Invalid methods at every registration position must keep failing with a configuration "
+            "error and be repaired by unregister.",
+            "Faults are exceptions in the calling thread (not process death); a fault inside register() may leave either complete "
+            "set; quick samples every 7th crash point, thorough all of them.",
+            "DESIGN.md §4 C18"),
     "C04": ("exploration",
             "runtime differential monitor: long-lived function vs never-called twin on every call of a history (order pinned)",
             "Each call of a random history (failing calls, nested recurse / call_next / f.next with same and other "
